@@ -1,6 +1,10 @@
 //! E-sched: forced schedules at the verification hooks (hooks build only).
 //! case: <scenario>;<request kind>   scenario = change_window | analyze_pair | publish_pair | parse_pair
 //!                                              | two:<state>:<hookA>:<hookB>:<ab|ba>[:c]
+//!                                              | tree_vs_change
+//!   tree_vs_change: a change notification is parked inside its critical section (it holds the DocumentInfo write lock of
+//!        aDoc) while the class tree is built by a pool; the gate opens 300 ms later.  The builder must WAIT for the
+//!        document, not skip it: afterwards supertypes(aDoc) = aBase.  result: tree=<names of the supertypes> hook=<reached>
 //!   two: request Ta is started and parked at its first arrival at hookA, then request Tb is started and parked at
 //!        its first arrival at hookB (if it gets there: it may block on something Ta holds); the gates are opened in
 //!        the given order with time for the released request to finish in between.  state = fresh (nothing opened or
@@ -229,6 +233,47 @@ pub fn run_case(line: &str) -> String {
             out.push(format!("{}={}/{}", n, v, same));
         }
         return format!("{} hook={} hookb={}", out.join(" "), ra, rb);
+    }
+    if scenario == "tree_vs_change" {
+        let mut w = world(0);
+        let gate = Arc::new(Gate { state: Mutex::new((false, false)), cv: Condvar::new() });
+        let g2 = gate.clone();
+        crate::verif_hooks::install(Some(Arc::new(move |name: &'static str| {
+            if name == "change:between_reset_and_install" { park(&g2); }
+        })));
+        let pm1 = w.pm.clone(); let uri1 = w.uri.clone();
+        let changer = std::thread::spawn(move || {
+            let mut pm = pm1; let pool = ThreadPool::new(1, Box::new(Silent));
+            let _ = pm.notify_document_changed(&uri1, &text(1), &pool);
+        });
+        let reached = wait_reached(&gate, 3000);
+        let pm2 = w.pm.clone();
+        let (tx, rx) = std::sync::mpsc::channel();
+        let builder = std::thread::spawn(move || {
+            let pool = ThreadPool::new(3, Box::new(Silent));
+            pm2.entity_tree_service.build_tree_parallel(&pm2.doc_service, &pool);
+            drop(pool);
+            let _ = tx.send(());
+        });
+        let _ = rx.recv_timeout(Duration::from_millis(300));
+        open(&gate);
+        let _ = changer.join();
+        if rx.recv_timeout(Duration::from_secs(8)).is_err() && builder.is_finished() == false {
+            crate::verif_hooks::install(None);
+            std::mem::forget(w);
+            return format!("HANG tree build hook={}", reached);
+        }
+        let _ = builder.join();
+        crate::verif_hooks::install(None);
+        let sup = match w.pm.prepare_type_hierarchy(&w.uri, &Position::new(1, 8)) {
+            Ok(items) if !items.is_empty() => match w.pm.type_hierarchy_supertypes(&items[0]) {
+                Ok(s) => s.iter().map(|i| i.name.clone()).collect::<Vec<_>>().join(","),
+                Err(e) => format!("ERR {}", e.msg.replace(' ', "_")),
+            },
+            Ok(_) => "NOITEM".to_string(),
+            Err(e) => format!("ERR {}", e.msg.replace(' ', "_")),
+        };
+        return format!("tree={} hook={}", if sup.is_empty() { "-".to_string() } else { sup }, reached);
     }
     let (hook_name, changer): (&'static str, bool) = match scenario {
         "change_window" => ("change:between_reset_and_install", true),
